@@ -12,7 +12,7 @@ D4 history independence: no log entry at or below the highwater mark - every ins
 D5 SRTLA ACK attribution: arrival link first, then the first other holder, then stop; global +1 for every link;
 D6 registration at flush time with the routed sequence number.
 """
-from ..ctx import full_slice_element, is_iter_next, CONN, is_call, is_field, sname
+from ..ctx import full_slice_element, is_iter_next, CONN, is_call, is_field, sname, some_of
 from ..expr import show, walk
 from ..pathcond import PathA, calls_to, field_stores
 from . import C05
@@ -89,7 +89,7 @@ def d1_representation_invariant(ctx):
                 # accepted idiom: the path skips the resync only when remove() found nothing
                 pa2 = PathA(ctx.w, fn, avoid=good_blocks)
                 rv = pa2.fa._val_call(t, (mb, len(fn.blocks[mb]["stmts"])), 0)
-                found = pa2.find(lambda a: is_call(a, name_contains="Option::<T>::is_some") and a[2][0] == rv)
+                found = some_of(pa2, lambda x: x == rv)
                 if found:
                     pcr = pa2.pc_return()
                     ok = pa2.entails(pcr, pa2.bdd.NOT(found[0][1]))
@@ -112,7 +112,7 @@ def d2_retire_only_if_held(ctx):
     rb, rt = rm[0]
     rv = pa.fa._val_call(rt, (rb, len(f.blocks[rb]["stmts"])), 0)
     ctx.chk.ob("D2", "SRTLA ACK removes packet_log[seq]", is_field(rv[2][0], "packet_log", CONN) and rv[2][1] == ("param", 2), show(rv, f.names), key="D2:ack-remove-args")
-    found = pa.find(lambda a: is_call(a, name_contains="Option::<T>::is_some") and a[2][0] == rv)
+    found = some_of(pa, lambda x: x == rv)
     if not found:
         ctx.chk.missing("D2", "handle_srtla_ack_specific: is_some(remove(..))", "")
         return
